@@ -823,10 +823,13 @@ class Job:
                 if fn in (self.FN_STATE_POINT, self.FN_DOCUMENT):
                     continue
                 path = os.path.join(self.path, fn)
-                if os.path.isfile(path):
-                    os.remove(path)
-                elif os.path.isdir(path):
+                # Everything but a directory is removed as a file: an entry
+                # that cannot be examined raises instead of being skipped,
+                # and symbolic links are removed rather than followed.
+                if os.path.isdir(path) and not os.path.islink(path):
                     shutil.rmtree(path)
+                else:
+                    os.remove(path)
             self.document.clear()
         except OSError as error:
             if error.errno != errno.ENOENT:
